@@ -5,6 +5,7 @@
 // (c06_common.hpp): prescribed entries == exactly, unconstrained entries bitwise unchanged, second application changes
 // nothing (bitwise for unit filters, within the rounding bound of the reference for slip/mean), the defining functional
 // (normal component, weighted mean) vanishes up to rounding, filter objects are not modified by their application.
+#include "c06_config.hpp"
 #include "c06_common.hpp"
 #include <memory>
 #include <type_traits>
@@ -88,8 +89,8 @@ namespace
     "add scrambled (odd indices descending, then even ascending)", "add half, apply once to a scratch vector, add the rest"};
 
   // how the filter object under test came into being (pattern "derived objects")
-  enum { FD_NONE = 0, FD_CLONE_DEEP, FD_CLONE_SHALLOW, FD_MOVE_ASSIGN, FD_CLONE_INTO, FD_CONVERT, NUM_FD };
-  const char* fd_name[NUM_FD] = {"as built", "clone(Deep)", "clone(Shallow)", "move-assigned over a used filter", "clone(other) into a used filter", "convert() from the other data type"};
+  enum { FD_NONE = 0, FD_CLONE_DEEP, FD_CLONE_SHALLOW, FD_MOVE_ASSIGN, FD_CLONE_INTO, FD_CONVERT, FD_CLEAR_REASSIGN, NUM_FD };
+  const char* fd_name[NUM_FD] = {"as built", "clone(Deep)", "clone(Shallow)", "move-assigned over a used filter", "clone(other) into a used filter", "convert() from the other data type", "move-assigned over a used and then clear()ed filter"};
 
   /// the order in which the entries of a set are added
   inline std::vector<Index> add_order(const std::vector<Index>& asc, int order)
@@ -141,6 +142,12 @@ namespace
     return f;
   }
 
+  /// MeanFilterBlocked::clear() does not compile on the pinned tree (Tiny::Vector has no clear(); proposed fix
+  /// spec/proposed_fixes/C06-mean-filter-blocked-convert-clear.patch): set C06_HAVE_MEANB_FIX once it is repaired
+  template<typename F> struct CanClear { static constexpr bool value = true; };
+#ifndef C06_HAVE_MEANB_FIX
+  template<typename DT, typename IT, int BS> struct CanClear<MeanFilterBlocked<DT, IT, BS>> { static constexpr bool value = false; };
+#endif
   /// derives the filter under test from the built one; 'keep' receives the source object (it must stay usable and unchanged)
   template<typename F, typename MakeOther>
   F derive_filter(F&& built, int fd, std::vector<std::shared_ptr<void>>& keep, MakeOther&& make_other, F** srcp = nullptr)
@@ -154,9 +161,10 @@ namespace
       if(srcp && fd == FD_CLONE_DEEP) *srcp = src.get();
       return src->clone(fd == FD_CLONE_DEEP ? CloneMode::Deep : CloneMode::Shallow);
     }
-    case FD_MOVE_ASSIGN:
+    case FD_MOVE_ASSIGN: case FD_CLEAR_REASSIGN:
     {
       F t = make_other();
+      if constexpr(CanClear<F>::value) { if(fd == FD_CLEAR_REASSIGN) t.clear(); }
       t = std::move(built);
       return t;
     }
